@@ -14,6 +14,15 @@ CHECKS = {
  "C04": ("translation_validation",
          "Every chart of the families is transpiled by ChartToC (in-process), the emitted machine is compiled with the sizing macros the generator emits (thorough: also with ASan+UBSan) together with a scaffold providing all callbacks, run on every event word, and every uscxml_step() is compared by TLC with the TLA+ specification iterated to the next micro-step (dequeued/raised/sent events, log output incl. entry/exit order, configuration, final data); the uscxml_ctx sits between guard areas checked after every step.",
          "5 C04", "trace validation of emitted C against the TLA+ spec (Trace_Step, coarse step) + sanitizer side condition"),
+ "C07": ("fault_enumeration",
+         "For every base chart (directed + bounded-exhaustive E(1..2,1)) and every position of every executable block (onentry, onexit, transition, initial/history transition), one variant per fault kind (illegal location, illegal expression, unsupported send type, unreachable / invalid send target, missing attribute, division and modulo by zero) plus failing conditions, <if> conditions and <data> initialisers, for lua and promela, both engines; TLC validates every step against the specification's error semantics (error event at the right queue position, only the rest of that block skipped); the recording child's exit status is part of the trace.",
+         "5 C07", "fault enumeration: recorded runs of fault-injected charts validated against the TLA+ spec (Trace_Step)"),
+ "C08": ("model_checking",
+         "EventQueue.tla (mutex/condition-variable FIFO, N producers, one consumer; exactly once, per-sender FIFO, conservation, no lost wake-up under fairness) is model-checked; real runs with 2-6 producer threads against a blocking or polling stepper are recorded through hooks under the queue's mutex and validated against the model's abstract state (Trace_Queue.tla); the sequential dequeue discipline is validated on every interpreter campaign trace.",
+         "5 C08", "TLC model checking (EventQueue) + trace validation of recorded multi-threaded runs (Trace_Queue)"),
+ "C10": ("model_checking",
+         "All API words (step* ; up to 2-3 of {step, receive, cancel, reset} ; step*) over six charts are executed against fresh interpreters (instrumented components and the default ones) and every call is validated against ScxmlStep, in which receive/cancel/reset are enabled in every life-cycle state; Teardown.tla (timer thread vs stop()) is model-checked for termination under fairness in both variants, and its counterexample schedule is forced in the real code through the hooks, next to randomly delayed create/step/destroy cycles under a watchdog.",
+         "5 C10", "trace validation of enumerated API words (Trace_Step) + TLC liveness checking (Teardown) + forced-schedule replay"),
  "C12": ("exploration",
          "TLC enumerates all descriptor lists up to the bound with the verdict of the TLA+ relation NameMatch for every event name up to the bound; the table is replayed through uscxml::nameMatch and the matcher shipped in test-gen-c.cpp. Exhaustive in the bound, seeded random beyond.",
          "5 C12", "TLC-generated oracle table (MC_NameMatch) replayed through the implementation"),
@@ -23,6 +32,9 @@ CHECKS = {
  "C20": ("exploration",
          "Every (document, back-end) is transpiled in six process environments (two separate processes, ASLR off, allocator perturbation, cold and warm cache files in another TMPDIR); TLC checks that the digest is a function of (document, back-end) (Determinism.tla). Interpreter traces of the same cases recorded in two environments are compared by Lockstep. Only non-determinism that one of the enumerated environments provokes can be seen.",
          "5 C20", "TLC functional-dependence check over observations from several process environments (Determinism) + Lockstep"),
+ "C14": ("fault_enumeration",
+         "Every macrostep boundary of every run is a snapshot point: the interpreter is serialized there and a fresh interpreter for the same document resumes from the text; TLC validates prefix . resume . continuation against the specification, in which Resume leaves every abstract variable unchanged (configuration, history, initialised data, data values, pending external events). State strings of other documents must be rejected (all ordered pairs of eight documents).",
+         "5 C14", "fault enumeration over snapshot points: resumed runs validated against the TLA+ spec (Trace_Step with EnvResume)"),
  "C17": ("exploration",
          "TLC enumerates expression ASTs up to depth 2 with the value the TLA+ evaluator PromelaExpr!Eval defines (C integer semantics) and renders each with minimal and full parentheses; every vector is evaluated by evalAsData/evalAsBool of a live promela-datamodel interpreter in forked children (a crash is an outcome).",
          "5 C17", "TLC-generated oracle table (MC_PromelaExpr) replayed through the implementation"),
